@@ -88,7 +88,9 @@ func (a *An) currentWriters() map[string][]string {
 			key := tn + "." + fld.Name()
 			set := map[string]bool{}
 			for _, s := range a.DirectStoresTo(fld) {
-				set[a.C.Name(a.C.owner(s.Parent()))] = true
+				for _, o := range a.ownersOf(s.Parent(), 0) {
+					set[o] = true
+				}
 			}
 			// in-place mutation of slices/maps held in the field (append results are stores; element stores and map
 			// updates are not): count them as writes of the field
@@ -109,7 +111,9 @@ func (a *An) currentWriters() map[string][]string {
 						}
 						if ld, isLd := addr.(*ssa.UnOp); isLd {
 							if fa, isFA := ld.X.(*ssa.FieldAddr); isFA && fieldOf(fa) == fld {
-								set[a.C.Name(a.C.owner(f))] = true
+								for _, o := range a.ownersOf(f, 0) {
+									set[o] = true
+								}
 							}
 						}
 					}
@@ -314,4 +318,140 @@ func genTables(a *An) {
 		fmt.Printf("\t%q: {%s},\n", k, strings.Join(q, ", "))
 	}
 	fmt.Println("}")
+	fmt.Println()
+	fmt.Println("var frozenEvents = map[string][]string{")
+	ev := a.currentEvents()
+	keys = keys[:0]
+	for k := range ev {
+		keys = append(keys, k)
+	}
+	sort.Strings(keys)
+	for _, k := range keys {
+		var q []string
+		for _, x := range ev[k] {
+			q = append(q, fmt.Sprintf("%q", x))
+		}
+		fmt.Printf("\t%q: {%s},\n", k, strings.Join(q, ", "))
+	}
+	fmt.Println("}")
+}
+
+// ---- events ---------------------------------------------------------------------------------------------------
+// Which events each function raises (kind and constant) is a closed table too: an event that is no longer raised, a
+// different one, or one raised in a new place changes what the user is told about the session.
+
+var eventFns = map[string]string{
+	"(*Conversation).messageEvent":            "message",
+	"(*Conversation).messageEventWithError":   "message",
+	"(*Conversation).messageEventWithMessage": "message",
+	"(*Conversation).smpEvent":                "smp",
+	"(*Conversation).smpEventWithQuestion":    "smp",
+	"(*Conversation).securityEvent":           "security",
+	"(*Conversation).signalSecurityEventIf":   "security",
+}
+
+var eventProps = map[string]string{"message": "C02 C03 C16 C18", "smp": "C11 C12", "security": "C18"}
+
+// currentEvents: owner function → sorted list of "kind:value" (with multiplicity as #n when raised in several places).
+func (a *An) currentEvents() map[string][]string {
+	cnt := map[string]map[string]int{}
+	for _, f := range a.C.FuncSeq {
+		for _, b := range f.Blocks {
+			for _, in := range b.Instrs {
+				call, ok := in.(ssa.CallInstruction)
+				if !ok {
+					continue
+				}
+				kind, isEv := eventFns[a.F.callName(call)]
+				if !isEv {
+					continue
+				}
+				if _, self := eventFns[a.C.Name(f)]; self {
+					continue // the delivery functions calling each other
+				}
+				args := call.Common().Args
+				idx := 1
+				if a.F.callName(call) == "(*Conversation).signalSecurityEventIf" {
+					idx = 2
+				}
+				v := "?"
+				if idx < len(args) {
+					v = a.C.Term(args[idx])
+				}
+				o := a.C.Name(a.C.owner(f))
+				if cnt[o] == nil {
+					cnt[o] = map[string]int{}
+				}
+				cnt[o][kind+":"+v]++
+			}
+		}
+	}
+	out := map[string][]string{}
+	for o, m := range cnt {
+		var l []string
+		for k, n := range m {
+			if n > 1 {
+				k = fmt.Sprintf("%s#%d", k, n)
+			}
+			l = append(l, k)
+		}
+		sort.Strings(l)
+		out[o] = l
+	}
+	return out
+}
+
+func (a *An) closedEvents(prop string) {
+	R := a.R
+	cur := a.currentEvents()
+	names := map[string]bool{}
+	for k := range cur {
+		names[k] = true
+	}
+	for k := range frozenEvents {
+		names[k] = true
+	}
+	n := 0
+	for _, fn := range sortedKeys(names) {
+		c, f := cur[fn], frozenEvents[fn]
+		relevant := false
+		for _, e := range append(append([]string{}, c...), f...) {
+			kind := e[:strings.Index(e, ":")]
+			if strings.Contains(eventProps[kind], prop) {
+				relevant = true
+			}
+		}
+		if !relevant {
+			continue
+		}
+		n++
+		R.Check(strings.Join(c, " ") == strings.Join(f, " "), "P.events-closed", "events|"+fn, "the events "+fn+" raises are the reviewed ones", "",
+			"raises ["+strings.Join(c, " ")+"], reviewed ["+strings.Join(f, " ")+"]: an event is missing, added or different — the user is told something else about the session")
+	}
+	R.Extra["functions_with_closed_event_sets"] = n
+}
+
+// ownersOf: the functions a write inside f is attributed to: f itself when it is a function of the reviewed tree; for a
+// new function, the functions that call it (a helper shared by several callers writes on behalf of each of them).
+func (a *An) ownersOf(f *ssa.Function, depth int) []string {
+	if !a.C.isNew(f) || depth > 3 {
+		return []string{a.C.Name(f)}
+	}
+	sites := a.CallSites(f)
+	if len(sites) == 0 {
+		return []string{a.C.Name(f)}
+	}
+	set := map[string]bool{}
+	for _, cs := range sites {
+		if cs.Parent() == f {
+			continue
+		}
+		for _, o := range a.ownersOf(cs.Parent(), depth+1) {
+			set[o] = true
+		}
+	}
+	if len(set) == 0 {
+		return []string{a.C.Name(f)}
+	}
+	return sortedKeys(set)
 }
